@@ -3,7 +3,7 @@
    The model is coq/Geom/GeomModel.v (what Geometry derives from a description), coq/Geom/CondFile.v (conductivity
    file).  Geometry enters through oracles handed in as data (solid-angle sign per interface, insideness per probe
    and interface) and through explicit hypotheses on them (monotone chain). *)
-From OM Require Import Base.Lists Base.Ops Geom.MeshTopo Geom.GeomModel Geom.GeomProofs Geom.OldOrdering Geom.CondFile Geom.CondProofs.
+From OM Require Import Base.Lists Base.Ops Geom.MeshTopo Geom.GeomModel Geom.GeomProofs Geom.OldOrdering Geom.CondFile Geom.CondProofs Geom.SaveGeom.
 From Coq Require Import Permutation.
 Local Open Scope Z_scope.
 
@@ -146,6 +146,12 @@ Print Assumptions unique_domain_nested_chain.
 Example chain3_hypotheses_satisfiable :
   monotone 3 (fun i => Nat.leb 1 i) /\ length (filter (contains_sig (fun i => Nat.leb 1 i)) (chain_sigs 3)) = 1%nat.
 Proof. split; [intros k Hk; destruct k as [|[|[|k]]]; simpl; auto; lia | vm_compute; reflexivity]. Qed.
+
+(* --- Geometry::save(.geom) (repaired): the Meshes section lists each mesh used by some domain exactly once *)
+Theorem saved_description_lists_every_mesh_once : forall g, NoDup (saved_meshes g)
+  /\ forall m, In m (saved_meshes g) <-> exists d b om, In d (g_doms g) /\ In b d /\ In om (b_om b) /\ snd om = m.
+Proof. exact saved_meshes_spec. Qed.
+Print Assumptions saved_description_lists_every_mesh_once.
 
 (* --- conductivities are attached by name, for any line order, comments anywhere, any domain order *)
 Theorem cond_attached_by_name : forall (V : Type) (ls : list (cline V)) doms vs,
